@@ -47,12 +47,18 @@ SplitSeq == <<<<0, 0, 0>>, <<0, 3600, 7200>>, <<-89999, 93599, 0>>, <<93599, -89
 RulesFor(dd) == {[k |-> "alt", std |-> Ty(sp[1], 0), dst |-> Ty(sp[2], 1), sd |-> NdOf(vS), st |-> dd + sp[1] + sp[3] - sp[2], ed |-> NdOf(vE), et |-> sp[3]] :
                     sp \in {SplitSeq[i] : i \in {j \in 1..8 : ((j + dd) % 2 = 0 \/ dd > 604800 \/ dd < -604800)
                                                               /\ TimeOK(dd + SplitSeq[j][1] + SplitSeq[j][3] - SplitSeq[j][2])}}}
+\* ... and rules whose START time is a round value (0 h, 2 h) with the end time solved for: a shortcut keyed on the start time itself
+\* (permanent daylight time "starts on the first day at 00:00") is only reached this way
+AnchorSeq == <<<<0, 0, 0>>, <<0, 3600, 0>>, <<-18000, -14400, 0>>, <<0, 3600, 7200>>, <<-18000, -14400, 7200>>, <<3600, 0, 0>>>>     \* <<std, dst, start time>>
+RulesAnchored(dd) == {[k |-> "alt", std |-> Ty(sp[1], 0), dst |-> Ty(sp[2], 1), sd |-> NdOf(vS), st |-> sp[3], ed |-> NdOf(vE), et |-> sp[3] - sp[1] + sp[2] - dd] :
+                    sp \in {AnchorSeq[i] : i \in {j \in 1..6 : (j + dd) % 2 = 0 /\ TimeOK(AnchorSeq[j][3] - AnchorSeq[j][1] + AnchorSeq[j][2] - dd)}}}
+RulesAll(dd) == RulesFor(dd) \cup RulesAnchored(dd)
 \* derived decision = summary-based decision of Rule.tla = (on demand) the literal 400-year definition
-Agree == (vPh = 1 /\ CheckAgree) => LET sm == Summary IN \A dd \in TestDs(sm) : \A rr \in RulesFor(dd) :
+Agree == (vPh = 1 /\ CheckAgree) => LET sm == Summary IN \A dd \in TestDs(sm) : \A rr \in RulesAll(dd) :
            /\ DD(rr) = dd
            /\ RuleSummary(rr).consistent = ConsistentD(sm, dd)
            /\ (Literal => Consistent(rr) = ConsistentD(sm, dd))
-Emit == (EmitVec /\ vPh = 1) => LET sm == Summary IN \A dd \in TestDs(sm) : \A rr \in RulesFor(dd) :
+Emit == (EmitVec /\ vPh = 1) => LET sm == Summary IN \A dd \in TestDs(sm) : \A rr \in RulesAll(dd) :
            PrintT(<<"VEC", ToJson([op |-> "rule", a |-> [std |-> rr.std, dst |-> rr.dst, sd |-> rr.sd, st |-> rr.st, ed |-> rr.ed, et |-> rr.et],
                                    x |-> {IF ConsistentD(sm, dd) THEN [ok |-> 1] ELSE [err |-> "TransitionRule.InconsistentRule"]}])>>)
 Inv == Agree /\ Emit
